@@ -461,7 +461,7 @@ fn traits_view(case: &str, i: usize, ctx: &Ctx, rep: &mut Report) {
 }
 
 pub fn run(ctx: &Ctx) -> Report {
-    let n = if cfg!(miri) { ctx.opt_u64("n", 3) as usize } else { ctx.pick(300, 30_000) };
+    let n = if cfg!(miri) { ctx.opt_u64("n", 3) as usize } else { ctx.pick(3_000, 100_000) };
     let shape_types = [1, 21, 11, 8, 28, 18, 3, 23, 13, 5, 25, 15, 31];
     // work items: 13 shape types + 7 geo variants + traits, n each
     let lanes = shape_types.len() + 7 + 1;
